@@ -369,6 +369,17 @@ class GradFlow(Interp):
             return KPY
         if name in ("torch.is_complex", "torch.is_tensor", "torch.is_floating_point", "torch.numel"):
             return KPY
+        # sampling: a draw whose *parameters* depend on the signal carries no gradient to them unless it is reparameterised
+        if name.startswith("torch.distributions.") or (short in ("Normal", "Laplace", "Uniform", "Gamma", "Exponential", "MultivariateNormal", "Cauchy", "StudentT") and (lib or not is_method)):
+            v = self.mk(node, allv, tensor=False)
+            self.sh.setdefault("dist_toks", set()).add(v.tok)
+            return v
+        if is_method and short in ("sample", "sample_n") and recv is not None and recv.tok in self.sh.get("dist_toks", ()):
+            if recv.kind in ("D", "B"):
+                return self.sever(node, recv, "Distribution.sample() is not reparameterised: no gradient flows to the distribution's parameters (rsample() keeps the path)", tensor=True)
+            return GV("K", f"n{id(node)}", tensor=True)
+        if lib and short in ("normal", "poisson", "bernoulli", "multinomial") and any(v is not None and v.kind in ("D", "B") for v in allv):
+            return self.sever(node, GV("D"), f"{name}() draws with signal-dependent parameters outside autograd", tensor=True)
         # severing operations
         if is_method and short in SEVER_METHODS and recv is not None:
             return self.sever(node, recv, SEVER_METHODS[short], tensor=short.startswith("detach"))
